@@ -71,7 +71,7 @@ DEV_DEMOS = [
     ("MC_KeySetEnv", "MC_KeySetEnv_unsigned", "Validatable"),
 ]
 GEN_QUICK = ["Gen_KeySet_kk", "Gen_KeySet_zz", "Gen_KeySet_cc", "Gen_KeySet_set"]
-GEN_THOROUGH = ["Gen_KeySet_zz_thorough", "Gen_KeySet_cc_thorough", "Gen_KeySet_kzc_thorough"]
+GEN_THOROUGH = ["Gen_KeySet_zz_thorough", "Gen_KeySet_cc_thorough"]
 
 
 def _tlc(ctx, module, cfg, **kw):
@@ -218,8 +218,12 @@ def _binding(ctx, thorough):
     stats = os.path.join(ctx.work, "sim-stats.json")
     ctx.replay_cases("replay_keyset", cases, args=["--stats", stats], label="gen-sim")
     ch = json.load(open(stats))
-    if ch["chained"] < 0.99 * sim.ncases:
-        raise vlib.ToolError("the API-only object did not follow the simulated behaviours: %s" % ch)
+    if ch["chained"] < 0.99 * sim.ncases and not ctx.violations:
+        # every injected transition conformed, but an object driven only
+        # through the public API left the specification's behaviour: state
+        # that the projection does not show
+        ctx.violation("the API-only KeySet did not follow the simulated behaviours although every "
+                      "injected transition conformed (hidden state?)", ch)
     ctx.stage("follow", {"transitions_followed_on_api_only_object": ch["chained"]})
     os.remove(cases)
 
